@@ -48,6 +48,7 @@ func (r *Router) route(s Sender, p stanza.Packet) {
 		case *Client:
 			lastAcked := a.H
 			SendMissingStz(int(lastAcked), s, tt.Session.SMState.UnAckQueue)
+			verifPoint("route.smanswer.done", tt.Session.SMState.Id)
 		case *Component:
 		// TODO
 		default:
